@@ -7,6 +7,8 @@ runs a check against it with VERIF_REPO, prints the verdict and removes the work
 """
 import os, subprocess, sys, tempfile, shutil
 pid, tier, rest = sys.argv[1], sys.argv[2], sys.argv[3:]
+ev = "/verif/evidence/%s.json" % pid
+saved = open(ev, "rb").read() if os.path.exists(ev) else None
 wt = tempfile.mkdtemp(prefix="vmut-")
 os.rmdir(wt)
 subprocess.run(["git", "-C", "/repo", "worktree", "add", "-q", "--detach", wt], check=True)
@@ -33,5 +35,8 @@ finally:
     subprocess.run(["git", "-C", "/repo", "worktree", "remove", "--force", wt])
     shutil.rmtree(wt, ignore_errors=True)
     # evidence written by a mutant run is not evidence
-    subprocess.run(["git", "-C", "/verif", "checkout", "--", "evidence/%s.json" % pid], capture_output=True)
+    if saved is not None:
+        open(ev, "wb").write(saved)
+    elif os.path.exists(ev):
+        os.remove(ev)
     shutil.rmtree("/verif/replays/%s/found" % pid, ignore_errors=True)
